@@ -134,6 +134,8 @@ def gen_op(rng, ci, j, keys, counters, big_n):
         return op
     if r < 0.27:
         return {'op': 'set', 'k': rng.choice(counters), 'v': 1000 * (ci + 1) + j}
+    if r < 0.30:
+        return {'op': 'close'}     # closes the caller's own connection only; the object stays usable, other clients are undisturbed
     k = rng.choice(keys)
     name = rng.choice(('set', 'set', 'setitem', 'add', 'add', 'get', 'get', 'getitem', 'pop', 'delete', 'delitem',
                        'touch', 'contains', 'len', 'iter', 'read'))
